@@ -7,7 +7,7 @@ namespace Rpyc.Proto.Ledger
 theorem lstep_issue (x : Side) (me pr : SideSt) (w : Wire) (k : Kind) (me' pr' : SideSt) (w' : Wire)
     (h : lstep x me pr w (.issue k) = some (me', pr', w')) (h1 : Dir x me pr w) (h2 : Dir x.peer pr me w) :
     Dir x me' pr' w' ∧ Dir x.peer pr' me' w' := by
-  simp only [lstep] at h
+  simp only [lstep, lstepWith] at h
   split at h
   · cases h
   simp only [Option.some.injEq, Prod.mk.injEq] at h
@@ -63,7 +63,7 @@ theorem lstep_issue (x : Side) (me pr : SideSt) (w : Wire) (k : Kind) (me' pr' :
 theorem lstep_issueFail (x : Side) (me pr : SideSt) (w : Wire) (me' pr' : SideSt) (w' : Wire)
     (h : lstep x me pr w .issueFail = some (me', pr', w')) (h1 : Dir x me pr w) (h2 : Dir x.peer pr me w) :
     Dir x me' pr' w' ∧ Dir x.peer pr' me' w' := by
-  simp only [lstep] at h
+  simp only [lstep, lstepWith] at h
   split at h
   · cases h
   simp only [Option.some.injEq, Prod.mk.injEq] at h
@@ -83,7 +83,7 @@ theorem lstep_issueFail (x : Side) (me pr : SideSt) (w : Wire) (me' pr' : SideSt
 theorem lstep_await (x : Side) (me pr : SideSt) (w : Wire) (s : Nat) (me' pr' : SideSt) (w' : Wire)
     (h : lstep x me pr w (.await s) = some (me', pr', w')) (h1 : Dir x me pr w) (h2 : Dir x.peer pr me w) :
     Dir x me' pr' w' ∧ Dir x.peer pr' me' w' := by
-  simp only [lstep] at h
+  simp only [lstep, lstepWith] at h
   split at h
   · cases h
   split at h
@@ -100,7 +100,7 @@ theorem lstep_await (x : Side) (me pr : SideSt) (w : Wire) (s : Nat) (me' pr' : 
 theorem lstep_deliver (x : Side) (me pr : SideSt) (w : Wire) (me' pr' : SideSt) (w' : Wire)
     (h : lstep x me pr w .deliver = some (me', pr', w')) (h1 : Dir x me pr w) (h2 : Dir x.peer pr me w) :
     Dir x me' pr' w' ∧ Dir x.peer pr' me' w' := by
-  simp only [lstep] at h
+  simp only [lstep, lstepWith] at h
   split at h
   · cases h
   split at h
@@ -171,10 +171,70 @@ theorem lstep_deliver (x : Side) (me pr : SideSt) (w : Wire) (me' pr' : SideSt) 
         omega
       · intro q; have := h2.count q; rw [hin] at this; simpa using this
 
+theorem lstep_deliverFail (x : Side) (me pr : SideSt) (w : Wire) (me' pr' : SideSt) (w' : Wire)
+    (h : lstep x me pr w .deliverFail = some (me', pr', w')) (h1 : Dir x me pr w) (h2 : Dir x.peer pr me w) :
+    Dir x me' pr' w' ∧ Dir x.peer pr' me' w' := by
+  simp only [lstep, lstepWith, decode_guarded, if_true] at h
+  split at h
+  · cases h
+  split at h
+  · cases h
+  split at h
+  · -- a response whose payload cannot be decoded: delivered all the same
+    rename_i k s v rest hin
+    split at h
+    · rename_i hreg
+      simp only [Option.some.injEq, Prod.mk.injEq] at h
+      obtain ⟨rfl, rfl, rfl⟩ := h
+      have hpos : 0 < nKey s me.callbacks := (registered_iff _ _).mp hreg
+      have hw := h1.waiter s
+      have ho := h1.once s
+      refine ⟨⟨h1.count, ?_, h1.below, h1.sorted, h1.once, h1.wireReq, ?_, ?_, ?_,
+        h1.wireResp, h1.exec, h1.honest⟩, ⟨?_, h2.waiter, h2.below, h2.sorted, h2.once, h2.wireReq, h2.flow,
+        h2.provRes, h2.provInbox, h2.wireResp, h2.exec, h2.honest⟩⟩
+      · intro q; have := h1.waiter q
+        simp only [nKey_unregister, nKey_append, nKey_cons, nKey_nil]
+        by_cases hq : s = q
+        · subst hq; simp; omega
+        · simp [hq]; omega
+      · intro q; have := h1.flow q; rw [hin] at this
+        by_cases hq : s = q <;> simp [hq] at this ⊢ <;> omega
+      · intro e he
+        simp only [List.mem_append, List.mem_singleton] at he
+        rcases he with he | he
+        · exact h1.provRes e he
+        · subst he; exact h1.provInbox k s v (by rw [hin]; exact List.mem_cons_self)
+      · intro k' s' v' hm; exact h1.provInbox k' s' v' (by rw [hin]; exact List.mem_cons_of_mem _ hm)
+      · intro q; have := h2.count q; rw [hin] at this
+        simp only [nHand_unwind]
+        simpa using this
+    · rename_i hreg
+      simp only [Option.some.injEq, Prod.mk.injEq] at h
+      obtain ⟨rfl, rfl, rfl⟩ := h
+      have hzero : nKey s me.callbacks = 0 := (not_registered_iff _ _).mp (by simpa using hreg)
+      refine ⟨⟨h1.count, h1.waiter, h1.below, h1.sorted, h1.once, h1.wireReq, ?_, h1.provRes, ?_,
+        h1.wireResp, h1.exec, ?_⟩, ⟨?_, h2.waiter, h2.below, h2.sorted, h2.once, h2.wireReq, h2.flow,
+        h2.provRes, h2.provInbox, h2.wireResp, h2.exec, h2.honest⟩⟩
+      · intro q; have := h1.flow q; rw [hin] at this
+        by_cases hq : s = q <;> simp [hq] at this ⊢ <;> omega
+      · intro k' s' v' hm; exact h1.provInbox k' s' v' (by rw [hin]; exact List.mem_cons_of_mem _ hm)
+      · intro hinj
+        exfalso
+        have hf := h1.flow s
+        have hc := h1.count s
+        have hw := h1.waiter s
+        have ho := h1.once s
+        have hinj' : me.injected = [] := hinj
+        rw [hin, hinj'] at hf
+        simp at hf
+        omega
+      · intro q; have := h2.count q; rw [hin] at this; simpa using this
+  · cases h
+
 theorem lstep_finish (x : Side) (me pr : SideSt) (w : Wire) (o : Outcome) (v : Nat) (me' pr' : SideSt) (w' : Wire)
     (h : lstep x me pr w (.finish o v) = some (me', pr', w')) (h1 : Dir x me pr w) (h2 : Dir x.peer pr me w) :
     Dir x me' pr' w' ∧ Dir x.peer pr' me' w' := by
-  simp only [lstep] at h
+  simp only [lstep, lstepWith] at h
   split at h
   · cases h
   split at h
@@ -229,7 +289,7 @@ theorem lstep_finish (x : Side) (me pr : SideSt) (w : Wire) (o : Outcome) (v : N
 theorem lstep_inject (x : Side) (me pr : SideSt) (w : Wire) (k : RKind) (s v : Nat) (me' pr' : SideSt) (w' : Wire)
     (h : lstep x me pr w (.inject k s v) = some (me', pr', w')) (h1 : Dir x me pr w) (h2 : Dir x.peer pr me w) :
     Dir x me' pr' w' ∧ Dir x.peer pr' me' w' := by
-  simp only [lstep] at h
+  simp only [lstep, lstepWith] at h
   split at h
   · cases h
   simp only [Option.some.injEq, Prod.mk.injEq] at h
@@ -266,6 +326,7 @@ theorem lstep_inv (x : Side) (me pr : SideSt) (w : Wire) (a : Act) (me' pr' : Si
   | issueFail => exact lstep_issueFail x me pr w me' pr' w' h h1 h2
   | await s => exact lstep_await x me pr w s me' pr' w' h h1 h2
   | deliver => exact lstep_deliver x me pr w me' pr' w' h h1 h2
+  | deliverFail => exact lstep_deliverFail x me pr w me' pr' w' h h1 h2
   | finish o v => exact lstep_finish x me pr w o v me' pr' w' h h1 h2
   | inject k s v => exact lstep_inject x me pr w k s v me' pr' w' h h1 h2
 
@@ -382,21 +443,21 @@ theorem lstep_alive (x : Side) (me pr : SideSt) (w : Wire) (a : Act) (me' pr' : 
     me'.dead = me.dead ∧ pr'.dead = pr.dead ∧ me'.abandoned = me.abandoned ∧ pr'.abandoned = pr.abandoned := by
   cases a with
   | issue k =>
-    simp only [lstep] at h
+    simp only [lstep, lstepWith] at h
     split at h
     · cases h
     simp only [Option.some.injEq, Prod.mk.injEq] at h
     obtain ⟨rfl, rfl, rfl⟩ := h
     simp
   | issueFail =>
-    simp only [lstep] at h
+    simp only [lstep, lstepWith] at h
     split at h
     · cases h
     simp only [Option.some.injEq, Prod.mk.injEq] at h
     obtain ⟨rfl, rfl, rfl⟩ := h
     simp
   | await s =>
-    simp only [lstep] at h
+    simp only [lstep, lstepWith] at h
     split at h
     · cases h
     split at h <;>
@@ -404,7 +465,7 @@ theorem lstep_alive (x : Side) (me pr : SideSt) (w : Wire) (a : Act) (me' pr' : 
       obtain ⟨rfl, rfl, rfl⟩ := h
       simp
   | deliver =>
-    simp only [lstep] at h
+    simp only [lstep, lstepWith] at h
     split at h
     · cases h
     split at h
@@ -418,8 +479,20 @@ theorem lstep_alive (x : Side) (me pr : SideSt) (w : Wire) (a : Act) (me' pr' : 
       · simp only [Option.some.injEq, Prod.mk.injEq] at h
         obtain ⟨rfl, rfl, rfl⟩ := h
         simp
+  | deliverFail =>
+    simp only [lstep, lstepWith, decode_guarded, if_true] at h
+    split at h
+    · cases h
+    split at h
+    · cases h
+    split at h
+    · split at h <;>
+      · simp only [Option.some.injEq, Prod.mk.injEq] at h
+        obtain ⟨rfl, rfl, rfl⟩ := h
+        simp
+    · cases h
   | finish o v =>
-    simp only [lstep] at h
+    simp only [lstep, lstepWith] at h
     split at h
     · cases h
     split at h
@@ -431,7 +504,7 @@ theorem lstep_alive (x : Side) (me pr : SideSt) (w : Wire) (a : Act) (me' pr' : 
         simp [Act.answered, hp] at ha
     · cases h
   | inject k s v =>
-    simp only [lstep] at h
+    simp only [lstep, lstepWith] at h
     split at h
     · cases h
     simp only [Option.some.injEq, Prod.mk.injEq] at h
